@@ -5,6 +5,7 @@ import (
 	"math/rand"
 	"os"
 	"sort"
+	"sync"
 )
 
 func init() { cmds["enums"] = cmdEnums }
@@ -231,5 +232,49 @@ func enumRecord(t enumType, cs []enumConst, r *rand.Rand, thorough bool) M {
 		_, uerr, pan := safeUnmarshal(t, []byte(j))
 		junk = append(junk, M{"text": B(j), "uerr": uerr, "panic": pan})
 	}
-	return M{"e": "ENUM", "type": t.Name, "bitmask": t.Bitmask, "consts": consts, "probes": probes, "junk": junk}
+	// the same conversions from four goroutines at once (values of one type converted by several goroutines, as when
+	// messages are logged or JSON-encoded concurrently): every text equals the one obtained alone
+	concDiff := 0
+	if len(probes) > 1 {
+		type vt struct {
+			v    uint64
+			text string
+		}
+		var ref []vt
+		for _, p := range probes {
+			if !p["merr"].(bool) {
+				ref = append(ref, vt{fromLE(p["v"].(B)), string(p["text"].(B))})
+			}
+		}
+		var wg sync.WaitGroup
+		var mu sync.Mutex
+		for g := 0; g < 4; g++ {
+			wg.Add(1)
+			go func(g int) {
+				defer wg.Done()
+				defer func() {
+					if x := recover(); x != nil {
+						mu.Lock()
+						concDiff++
+						mu.Unlock()
+					}
+				}()
+				d := 0
+				for rep := 0; rep < 40; rep++ {
+					for i := range ref {
+						x := ref[(i+g*len(ref)/4)%len(ref)]
+						b, err := t.Marshal(x.v)
+						if err != nil || string(b) != x.text || t.String(x.v) != x.text {
+							d++
+						}
+					}
+				}
+				mu.Lock()
+				concDiff += d
+				mu.Unlock()
+			}(g)
+		}
+		wg.Wait()
+	}
+	return M{"e": "ENUM", "type": t.Name, "bitmask": t.Bitmask, "consts": consts, "probes": probes, "junk": junk, "conc_diff": concDiff}
 }
